@@ -1,6 +1,7 @@
 package props
 
 import (
+	"encoding/base64"
 	"encoding/json"
 	"fmt"
 	"testing"
@@ -59,10 +60,36 @@ func rememberTruth(m *Machine, s *Step, b int, u string) bool {
 type monC01 struct {
 	// pending[b][kind] = user whose credentialed first step parked the login there
 	pending []map[string]string
+	// spent: one-time credentials the monitor has seen accepted once (storage is not trusted to have consumed them)
+	spent map[string]bool
 	accepted, rejectedNear int
 }
 
+// oneTimeKey names the one-time credential a request presents ("" if none).
+func oneTimeKey(m *Machine, s *Step) string {
+	switch s.Op.K {
+	case "otplogin":
+		return "otp|" + s.Pid + "|" + s.Secret
+	case "recend":
+		if raw, err := base64.URLEncoding.DecodeString(s.Secret); err == nil {
+			return "rectok|" + string(raw)
+		}
+	}
+	return ""
+}
+
+func cookieSpentKey(s *Step) string {
+	if s.Resp == nil {
+		return ""
+	}
+	if raw, err := base64.URLEncoding.DecodeString(s.Resp.CookBefore["rm"]); err == nil && len(raw) > 0 {
+		return "rm|" + string(raw)
+	}
+	return ""
+}
+
 func (c *monC01) Init(m *Machine) {
+	c.spent = map[string]bool{}
 	c.pending = make([]map[string]string, len(m.W.Jars))
 	for i := range c.pending {
 		c.pending[i] = map[string]string{}
@@ -98,7 +125,7 @@ func (c *monC01) After(m *Machine, s *Step) *Violation {
 	for kind, key := range pendingKeys {
 		pb, pa := r.SessBefore[key], r.SessAfter[key]
 		if pa != pb && pa != "" {
-			ok, inc := credTruth(m, s, pa)
+			ok, inc := c.cred(m, s, pa)
 			if inc {
 				st("C01").add("inconclusive", 1)
 			} else if !ok || (op.K != "login" && op.K != "otplogin" && op.K != "recend") {
@@ -129,7 +156,7 @@ func (c *monC01) After(m *Machine, s *Step) *Violation {
 		return violation("C01", "identity-dropped:"+op.K, "%s request removed the session user %q without logout or expiry", op.K, before)
 	}
 	// after is a new non-empty identity: it must be justified
-	if ok, inc := credTruth(m, s, after); inc {
+	if ok, inc := c.cred(m, s, after); inc {
 		st("C01").add("inconclusive", 1)
 		return nil
 	} else if ok {
@@ -137,7 +164,8 @@ func (c *monC01) After(m *Machine, s *Step) *Violation {
 		m.flag("accepted:" + op.K)
 		return nil
 	}
-	if before == "" && rememberTruth(m, s, b, after) {
+	if ck := cookieSpentKey(s); before == "" && rememberTruth(m, s, b, after) && !c.spent[ck] {
+		c.spent[ck] = true
 		c.accepted++
 		m.flag("accepted:remember")
 		return nil
@@ -179,6 +207,23 @@ func (c *monC01) noteReject(m *Machine, s *Step) {
 		c.rejectedNear++
 		m.flag("rejected:" + near)
 	}
+}
+
+// cred is credTruth with single-use bookkeeping: a one-time credential that was
+// accepted once is invalid from then on, whatever storage still says.
+func (c *monC01) cred(m *Machine, s *Step, u string) (bool, bool) {
+	ok, inc := credTruth(m, s, u)
+	if !ok || inc {
+		return ok, inc
+	}
+	if k := oneTimeKey(m, s); k != "" {
+		if c.spent[k] {
+			m.flag("spent-credential-presented")
+			return false, false
+		}
+		c.spent[k] = true
+	}
+	return true, false
 }
 
 func (c *monC01) End(m *Machine) *Violation { return nil }
